@@ -788,6 +788,19 @@ func (H) execConc(x *common.Exec, sc *Scenario) {
 	}
 	x.NonTrivial = nt >= 2 && len(all) >= 3
 	x.StateHash = hashStr(final.Out)
+	// adverse interleavings that actually occurred: operations of different
+	// tasks whose [invoke, return] intervals overlap, by kind of pair
+	for i, a := range all {
+		for _, b := range all[i+1:] {
+			if a.Task != b.Task && a.Inv < b.Ret && b.Inv < a.Ret {
+				k1, k2 := a.Op.K, b.Op.K
+				if k2 < k1 {
+					k1, k2 = k2, k1
+				}
+				x.Fault("overlap:" + k1 + "/" + k2)
+			}
+		}
+	}
 	for _, r := range all {
 		if strings.HasPrefix(r.Out, "DUPLICATE") {
 			x.Violate("C10/duplicate-report", "%v", r)
